@@ -11,6 +11,7 @@
     65536 on 4 files in the thorough tier). *)
 From Pakhi Require Import Base Float64 Syntax Tables Lexer Parser.
 From Pakhi.Proofs Require Import Modules ImportChain ParseTerm LoaderTerm.
+From Pakhi.Proofs Require Import Findings.
 Local Open Scope nat_scope.
 
 Theorem C15_cyclic_import_rejected_before_reading : forall fs cwd main_path alias module_path s1,
@@ -129,3 +130,11 @@ Theorem C15_every_statement_lowers_the_weight : forall fs cwd main_path known L,
              match st with FEOS _ => True | _ => mu known L l1 < mu known L l end.
 Proof. exact pstmt_progress_all. Qed.
 Print Assumptions C15_every_statement_lowers_the_weight.
+
+(* finding D29: the root imports one file twice, under the names ক and ক/খ -- nothing is cyclic, yet the loader answers with the cyclic-dependency error; each import alone loads *)
+Theorem C15_an_acyclic_graph_with_an_extending_import_name_is_refuted :
+  loads (front d29_fs d29_cwd d29_main 2000 d29_p1) = true /\
+  loads (front d29_fs d29_cwd d29_main 2000 d29_p2) = true /\
+  is_cyclic_error (front d29_fs d29_cwd d29_main 2000 (d29_p1 ++ d29_p2)) = true.
+Proof. exact slash_import_name_refutes_composition. Qed.
+Print Assumptions C15_an_acyclic_graph_with_an_extending_import_name_is_refuted.
